@@ -8,3 +8,4 @@ use crate::*;
 fn c01_p8_mul_contract() {
     P8E0::from_bits(kani::any()).mul(P8E0::from_bits(kani::any()));
 }
+
